@@ -639,15 +639,17 @@ impl MachineState {
             return self.directive_error(err);
         }
 
-        if let CompilationError::FiniteMemoryInHeap(err) = err {
-            // err.resource_error_offset() should be the address of the error/2 functor in the pre-allocated term error(resource_error(memory), [])
-            let err_loc = err.resource_error_offset(&mut self.heap);
-            let stub = vec![FunctorElement::AbsoluteCell(
-                // err_loc + 1 should be the functors first argument which should be a str cell pointing at the resource_error/1 functor
-                self.heap[err_loc + 1],
-            )];
+        if let CompilationError::FiniteMemoryInHeap(_) = err {
+            // a regular functor stub: a stub made of the single (absolute) Str cell of the
+            // pre-stored term is not a functor, and `error_form` embeds `err.stub` as one
+            // (the resulting error/2 term was malformed and broke the ball copier). If the
+            // heap cannot take the term either, `throw_exception` falls back to the
+            // pre-stored error.
             return MachineError {
-                stub,
+                stub: functor!(
+                    atom!("resource_error"),
+                    [atom_as_cell((atom!("memory")))]
+                ),
                 location: None,
             };
         }
